@@ -866,6 +866,84 @@ pub fn replay_history(case: &Value, _run: &Run) -> Acc {
 }
 
 // ---------------------------------------------------------------------------------------------
+// supplementary pass (NOT exhaustive, not part of the coverage statement): free-running threads
+//
+// The schedule exploration above only switches threads at the hooks. A race whose window lies between two
+// synchronisation operations that a change introduces itself (e.g. a process-wide cache behind a lock) contains no
+// hook and is invisible to it. This pass lets real threads run freely over thousands of distinct query texts through
+// the string entry points and compares every result with a sequential baseline. It can only produce true alarms
+// (a mismatch or panic is a genuine violation of C12); its silence proves nothing and is not counted as coverage.
+
+fn part_free_running(thorough: bool) -> Acc {
+    let mut acc = Acc::new();
+    let doc = Arc::new(Shared(json!({"k": (0..40).map(|i| json!({"n": i, "s": format!("s{}", i)})).collect::<Vec<_>>(), "p": "s1.*"})));
+    let nq = if thorough { 6000 } else { 2600 };
+    let queries: Arc<Vec<String>> = Arc::new(
+        (0..nq)
+            .map(|i| match i % 5 {
+                0 => format!("$.k[{}]", i % 40),
+                1 => format!("$.k[?@.n=={}].s", i),
+                2 => format!("$.k[?@.n<{}&&@.n>{}].n", i % 40 + 1, (i % 40) as i64 - 2),
+                3 => format!("$..[?@.s=='s{}']", i % 97),
+                _ => format!("$.k[{}:{}].n", i % 7, i % 11 + 2),
+            })
+            .collect(),
+    );
+    // sequential baseline on a separate (equal) document so that it shares nothing with the threads but its text
+    let base_doc = doc.0.clone();
+    let pv2 = |q: &str, d: &Value| pv(q, d);
+    let baseline: Arc<Vec<String>> = Arc::new(queries.iter().map(|q| pv2(q, &base_doc)).collect());
+    let nthreads = 8;
+    let bad: Arc<std::sync::Mutex<Vec<(usize, String)>>> = Arc::new(std::sync::Mutex::new(vec![]));
+    let barrier = Arc::new(std::sync::Barrier::new(nthreads));
+    let mut hs = vec![];
+    for t in 0..nthreads {
+        let (doc, queries, baseline, bad, barrier) = (doc.clone(), queries.clone(), baseline.clone(), bad.clone(), barrier.clone());
+        hs.push(std::thread::spawn(move || {
+            barrier.wait();
+            let n = queries.len();
+            for pass in 0..3 {
+                for k in 0..n {
+                    // all threads walk the same list; even threads in step, odd threads a little behind
+                    let i = (k + if t % 2 == 0 { 0 } else { n - 3 } + pass * 7) % n;
+                    let r = pv(&queries[i], &doc.0);
+                    if r != baseline[i] {
+                        let mut b = bad.lock().unwrap();
+                        if b.len() < 5 {
+                            b.push((i, r));
+                        }
+                    }
+                }
+            }
+        }));
+    }
+    for h in hs {
+        let _ = h.join();
+    }
+    acc.bump("supplementary_free_running_calls_not_counted_as_coverage", (nthreads * 3 * queries.len()) as u64);
+    for (i, r) in bad.lock().unwrap().iter() {
+        acc.viol(
+            format!("with 8 free-running threads on one document, {} returned {} ; evaluated alone it returns {}", queries[*i], r, baseline[*i]),
+            json!({"kind": "free-running", "class": "free-running threads (supplementary, sampled)", "query": queries[*i]}),
+        );
+    }
+    acc
+}
+
+pub fn replay_free_running(case: &Value, _run: &Run) -> Acc {
+    println!("re-running the free-running pass (sampled: a race may need several attempts); recorded query: {}", case["query"]);
+    let mut acc = Acc::new();
+    for _ in 0..5 {
+        let a = part_free_running(true);
+        if a.viol_count > 0 {
+            acc = a;
+            break;
+        }
+    }
+    acc
+}
+
+// ---------------------------------------------------------------------------------------------
 // part 4: Send + Sync (type check; a side condition, see DESIGN.md)
 
 fn part_static(run: &Run, acc: &mut Acc) -> Result<(), String> {
@@ -936,7 +1014,10 @@ pub fn run(tier: &str) -> i32 {
     for o in &c.outcomes {
         eprintln!("    {}", o);
     }
-    let mut acc = a.merge(b).merge(c);
+    let t0 = std::time::Instant::now();
+    let d = part_free_running(th);
+    eprintln!("  supplementary free-running pass (sampled, not coverage): {:.1}s", t0.elapsed().as_secs_f64());
+    let mut acc = a.merge(b).merge(c).merge(d);
     if let Err(e) = part_static(&run, &mut acc) {
         eprintln!("MACHINERY: {}", e);
         return 2;
@@ -947,6 +1028,7 @@ pub fn run(tier: &str) -> i32 {
         &[
             "scheduling points exist only at the hooks; safe Rust without interior mutability has no other place where threads can interact",
             "Send + Sync of JpQuery / JsonPathError / QueryRef is a type-check side condition (mc/static_assert)",
+            "a supplementary free-running pass (8 threads x thousands of distinct queries, compared with a sequential baseline) is sampled, can only raise true alarms and is not part of any count above",
         ],
         true,
         json!({}),
